@@ -86,12 +86,12 @@ def handle (req : LJson) : Except String LJson := do
   let xval := (getOpt case "xval").bind (fun b => b.getBool?.toOption) == some true
   -- a schema() that refuses (UnserializableException) is a declared refusal, not a schema
   let refuses := match model.schema with | .error _ => true | .ok _ => false
-  let app := applicable16 st && !implInvalid && !model.invalid && !refuses
+  let app := applicable16 st && !implInvalid && !refuses
   let (sImpl, js) ← if implInvalid then pure (none, Lean.Json.null) else do
     let o ← parseObs16 impl
     pure (if app then spec16 ps o else none,
           if xval then jsVerdicts o.schema o.ser o.probes else Lean.Json.null)
-  let sModel := if app then spec16 ps model else none
+  let sModel := if app && !model.invalid then spec16 ps model else none
   let nOut := model.probes.filter (fun pr => !pr.accepted) |>.length
   return Lean.Json.mkObj [
     ("model", jObs16 model js),
